@@ -17,7 +17,9 @@ import (
 	"github.com/graphql-go/graphql"
 	"github.com/graphql-go/graphql/gqlerrors"
 	"github.com/graphql-go/graphql/language/ast"
+	"github.com/graphql-go/graphql/language/parser"
 	"github.com/graphql-go/graphql/language/printer"
+	"github.com/graphql-go/graphql/language/source"
 )
 
 // C09: every input of the TLC-generated spaces is pushed through every public entry point;
@@ -235,6 +237,202 @@ func c09Battery(b *abs.Built, text string, vars map[string]interface{}, outs []a
 	}()
 }
 
+// c09Degen is one case of MC_C09's "degen" space: an entry point and the parameters handed to it.
+type c09Degen struct {
+	Entry  string `json:"entry"`
+	Schema string `json:"schema"` // ok | nil | zero
+	Doc    string `json:"doc"`    // ok | nil | empty | nildef | nilsel
+	Vars   string `json:"vars"`   // ok | nil
+	Ctx    string `json:"ctx"`    // ok | nil
+	Op     string `json:"op"`
+}
+
+// c09DegenCase calls one entry point with nil / zero-valued parameters.  What a request without schema or
+// document should answer beyond "no panic, returns, serialisable, an error whenever data is absent" is not stated
+// by the property (a zero Schema answers {"data":{}}): the observation is reported as parsed and valid, which
+// leaves exactly those clauses of ResultShape.
+func c09DegenCase(b *abs.Built, c *c09Degen, report func(c09Shape, string)) {
+	var schema graphql.Schema
+	var schemaP *graphql.Schema
+	switch c.Schema {
+	case "ok":
+		schema, schemaP = b.Schema, &b.Schema
+	case "zero":
+		schemaP = &graphql.Schema{}
+	}
+	text := "{ a }"
+	var doc *ast.Document
+	switch c.Doc {
+	case "ok":
+		doc, _ = parseDoc(text)
+	case "empty":
+		doc, text = &ast.Document{Kind: "Document"}, ""
+	default:
+		text = ""
+	}
+	var vars map[string]interface{}
+	if c.Vars == "ok" {
+		vars = map[string]interface{}{}
+	}
+	var ctx context.Context
+	if c.Ctx == "ok" {
+		ctx = abs.WithRun(context.Background(), &abs.RunCtx{Built: b, Root: rootObject, RootTag: "r"})
+	}
+	proper := c.Schema == "ok" && c.Doc == "ok" && c.Op == ""
+	shape := func(res *graphql.Result, pan string) {
+		sh := resultShape(c.Entry, res, pan, true, true)
+		if c.Entry == "CacheGet" {
+			sh.Entry = "CacheGet+ExecutePlan"
+		}
+		report(sh, pan)
+	}
+	plain := func(f func()) {
+		pan := ""
+		done := make(chan struct{})
+		go func() {
+			defer close(done)
+			defer func() {
+				if r := recover(); r != nil {
+					pan = fmt.Sprint(r)
+				}
+			}()
+			f()
+		}()
+		select {
+		case <-done:
+			report(c09Shape{Entry: c.Entry, Parse: true, Valid: true, Data: true, JSON: true, Panic: pan != ""}, pan)
+		case <-time.After(5 * time.Second):
+			report(c09Shape{Entry: c.Entry, Parse: true, Valid: true, JSON: true, Timeout: true}, "did not return within 5 s")
+		}
+	}
+	switch c.Entry {
+	case "Do":
+		shape(guard(func() *graphql.Result {
+			return graphql.Do(graphql.Params{Schema: schema, RequestString: text, RootObject: rootObject, VariableValues: vars, OperationName: c.Op, Context: ctx})
+		}))
+	case "Subscribe":
+		var first *graphql.Result
+		pan := ""
+		func() {
+			defer func() {
+				if r := recover(); r != nil {
+					pan = fmt.Sprint(r)
+				}
+			}()
+			cctx := ctx
+			if cctx != nil {
+				var cancel context.CancelFunc
+				cctx, cancel = context.WithCancel(cctx)
+				defer cancel()
+			}
+			ch := graphql.Subscribe(graphql.Params{Schema: schema, RequestString: text, RootObject: rootObject, VariableValues: vars, OperationName: c.Op, Context: cctx})
+			select {
+			case first = <-ch:
+			case <-time.After(3 * time.Second):
+			}
+		}()
+		if first == nil && pan == "" {
+			report(c09Shape{Entry: "Subscribe", Errs: true, JSON: true, Timeout: !proper}, "no first result within 3 s")
+			return
+		}
+		shape(first, pan)
+	case "ValidateDocument":
+		plain(func() {
+			vr := graphql.ValidateDocument(schemaP, doc, nil)
+			if vr.IsValid && (schemaP == nil || doc == nil) {
+				panic("ValidateDocument calls a request without schema or document valid")
+			}
+		})
+	case "PlanQuery", "ExecutePlan":
+		shape(guard(func() *graphql.Result {
+			plan, err := graphql.PlanQuery(schemaP, doc, c.Op)
+			if c.Entry == "PlanQuery" {
+				if err != nil {
+					return &graphql.Result{Errors: gqlErrs(err)}
+				}
+				if plan == nil {
+					panic("PlanQuery returned neither a plan nor an error")
+				}
+				if !proper {
+					return &graphql.Result{Data: map[string]interface{}{"planned": true}}
+				}
+			} else if err != nil || !proper {
+				plan = nil // ExecutePlan with a nil plan
+			}
+			return graphql.ExecutePlan(plan, graphql.ExecuteParams{Schema: schema, Root: rootObject, Args: vars, OperationName: c.Op, Context: ctx})
+		}))
+	case "Execute":
+		shape(guard(func() *graphql.Result {
+			return graphql.Execute(graphql.ExecuteParams{Schema: schema, Root: rootObject, AST: doc, Args: vars, OperationName: c.Op, Context: ctx})
+		}))
+	case "ExecuteSubscription":
+		var first *graphql.Result
+		pan := ""
+		func() {
+			defer func() {
+				if r := recover(); r != nil {
+					pan = fmt.Sprint(r)
+				}
+			}()
+			cctx := ctx
+			if cctx != nil {
+				var cancel context.CancelFunc
+				cctx, cancel = context.WithCancel(cctx)
+				defer cancel()
+			}
+			ch := graphql.ExecuteSubscription(graphql.ExecuteParams{Schema: schema, Root: rootObject, AST: doc, Args: vars, OperationName: c.Op, Context: cctx})
+			select {
+			case first = <-ch:
+			case <-time.After(3 * time.Second):
+			}
+		}()
+		if first == nil && pan == "" {
+			report(c09Shape{Entry: "ExecuteSubscription", Errs: true, JSON: true, Timeout: !proper}, "no first result within 3 s")
+			return
+		}
+		shape(first, pan)
+	case "CacheGet":
+		for _, nilCache := range []bool{false, true} {
+			shape(guard(func() *graphql.Result {
+				var cache *graphql.PlanCache
+				if !nilCache {
+					cache = graphql.NewPlanCache(graphql.PlanCacheOptions{MaxEntries: 2, Normalize: c.Vars == "ok"})
+				}
+				pr := cache.Get(schemaP, text, c.Op)
+				if len(pr.Errors) > 0 || pr.Plan == nil {
+					return &graphql.Result{Errors: pr.Errors}
+				}
+				return graphql.ExecutePlan(pr.Plan, graphql.ExecuteParams{Schema: schema, Root: rootObject, Args: vars, Context: ctx})
+			}))
+		}
+	case "Print":
+		plain(func() {
+			if doc == nil {
+				_ = printer.Print(nil)
+			} else {
+				_ = printer.Print(doc)
+			}
+		})
+	case "Parse":
+		plain(func() {
+			var src interface{}
+			switch c.Doc {
+			case "ok":
+				src = text
+			case "empty":
+				src = ""
+			case "nil":
+				if c.Vars == "ok" {
+					src = source.NewSource(nil)
+				} else if c.Ctx == "ok" {
+					src = &source.Source{}
+				}
+			}
+			_, _ = parser.Parse(parser.ParseParams{Source: src})
+		})
+	}
+}
+
 func gqlErrs(err error) []gqlerrors.FormattedError {
 	return gqlerrors.FormatErrors(err)
 }
@@ -276,6 +474,7 @@ func init() {
 					return
 				}
 				var probe struct {
+					Case *c09Degen `json:"case"`
 					Mode string   `json:"mode"`
 					Seq  []string `json:"seq"`
 					Fam  string   `json:"fam"`
@@ -288,6 +487,15 @@ func init() {
 					outs []abs.OutEntry
 				}
 				var jobs []job
+				if probe.Mode == "degen" && probe.Case != nil {
+					st.Add("vectors", 1)
+					c09DegenCase(b, probe.Case, func(sh c09Shape, note string) {
+						state.add(sh, fmt.Sprintf("%+v", *probe.Case), note)
+						st.Add("executions", 1)
+					})
+					st.Distinct("distinct_nontrivial", string(raw))
+					return
+				}
 				if probe.Fam == "tok" {
 					// a token-kind string of MC_C03 (grown from a fixed prefix, pruned at the first non-viable token)
 					jobs = append(jobs, job{text: string(renderTokens(probe.Toks, 0).text)})
